@@ -1,8 +1,8 @@
 reg("C10", "results depend only on the arguments (history, incremental objects, copies)",
     parts=[
-        dict(harness="c10_copies", cases=dict(quick=2400, thorough=24000), timeout_case=20),
-        dict(harness="c10_incremental", cases=dict(quick=1600, thorough=20000), timeout_case=30),
-        dict(harness="c10_history", cases=dict(quick=640, thorough=6000), timeout_case=120),
+        dict(harness="c10_copies", cases=dict(quick=2400, thorough=18000), timeout_case=20),
+        dict(harness="c10_incremental", cases=dict(quick=1600, thorough=15000), timeout_case=30),
+        dict(harness="c10_history", cases=dict(quick=640, thorough=4500), timeout_case=120),
     ],
     rule="three monitors over recorded histories. c10_copies: (a) a pool of copy-on-write vector handles "
          "(VectorInt, VectorDouble, VectorString, VectorVectorDouble, VectorT<int>) mirrored by std::vector models under "
@@ -28,9 +28,9 @@ reg("C10", "results depend only on the arguments (history, incremental objects, 
                  oracles=dict(quick={"vec-model": 20000, "copy-indep": 2200, "copy-twin": 1600, "kcalc-twin": 1400,
                                      "model-twin": 800, "neigh-twin": 1800, "ksys-twin": 1700, "vario-twin": 220,
                                      "matrix-twin": 320, "db-twin": 500, "hist-digest": 300, "hist-options": 2000},
-                              thorough={"vec-model": 240000, "copy-indep": 21000, "copy-twin": 16000, "kcalc-twin": 18000,
-                                        "model-twin": 9500, "neigh-twin": 24000, "ksys-twin": 21000, "vario-twin": 2800,
-                                        "matrix-twin": 4400, "db-twin": 6400, "hist-digest": 2800, "hist-options": 20000})),
+                              thorough={"vec-model": 180000, "copy-indep": 16000, "copy-twin": 12000, "kcalc-twin": 13500,
+                                        "model-twin": 7000, "neigh-twin": 18000, "ksys-twin": 16000, "vario-twin": 2100,
+                                        "matrix-twin": 3300, "db-twin": 4800, "hist-digest": 2000, "hist-options": 15000})),
     assumptions=["fork() gives a faithful pristine process: the worker never calls the library outside forked children in c10_history",
                  "twins are built through the public API from the recorded final content; where the construction path differs "
                  "(edits vs creation) answers are compared with a 1e-10 relative tolerance, bit-for-bit otherwise",
